@@ -32,7 +32,7 @@ theorem scanIncFileB_nil (banned : List Kind) (fs : FS) (fuel : Nat) (stack : Li
     scanIncFileB banned fs (fuel + 1) stack cur pos [] st =
       match flushPendingB st with
       | .error e => .error e
-      | .ok st' => if anyExplicit st'.ctx.frames then .error (.ctx .unclosedAtEOF) else .ok st' := rfl
+      | .ok st' => if stack.isEmpty && anyExplicit st'.ctx.frames then .error (.ctx .unclosedAtEOF) else .ok st' := rfl
 
 theorem scanIncFileB_dir (banned : List Kind) (fs : FS) (fuel : Nat) (stack : List (Nat × Nat)) (cur pos : Nat)
     (d : Dir) (rest : List FTok) (st : PScan) :
@@ -422,7 +422,7 @@ def scanFlatB (banned : List Kind) (stack : List (Nat × Nat)) (cur : Nat) : Nat
   | _, [], st =>
     match flushPendingB st with
     | .error e => .error e
-    | .ok st' => if anyExplicit st'.ctx.frames then .error (.ctx .unclosedAtEOF) else .ok st'
+    | .ok st' => if stack.isEmpty && anyExplicit st'.ctx.frames then .error (.ctx .unclosedAtEOF) else .ok st'
   | pos, .dir d :: rest, st =>
     match flushPendingB st with
     | .error e => .error e
@@ -553,12 +553,13 @@ theorem flushB_ok {st st' : PScan} (h : flushPendingB st = .ok st') : flushPendi
   · cases h
 
 /-- an accepted scan: every directive held at the end is one held at the beginning or an unbanned one; nothing is
-pending and no parenthesised context is open -/
+pending, and at the end of the root file (`stack = []`) no parenthesised context is open (since the repair of
+`processEOF` an included file may end inside a parenthesised context) -/
 theorem scanIncFileB_StAll (banned : List Kind) (fs : FS) (P : Dir → Prop)
     (hP : ∀ d, banned.contains d.kind = false → P d) :
     ∀ (fuel : Nat) (stack : List (Nat × Nat)) (cur pos : Nat) (toks : List FTok) (st r : PScan),
       scanIncFileB banned fs fuel stack cur pos toks st = .ok r → StAll P st →
-      StAll P r ∧ r.pending = none ∧ anyExplicit r.ctx.frames = false := by
+      StAll P r ∧ r.pending = none ∧ (stack = [] → anyExplicit r.ctx.frames = false) := by
   intro fuel
   induction fuel with
   | zero => intro stack cur pos toks st r h; rw [scanIncFileB_zero] at h; cases h
@@ -572,12 +573,14 @@ theorem scanIncFileB_StAll (banned : List Kind) (fs : FS) (P : Dir → Prop)
       | ok st' =>
         simp only [hfl] at h
         have ⟨hs', hp'⟩ := flush_StAll (flushB_ok hfl) hs
-        cases hx : anyExplicit st'.ctx.frames with
-        | true => simp [hx] at h
-        | false =>
-          simp only [hx, Bool.false_eq_true, ↓reduceIte, Except.ok.injEq] at h
-          subst h
-          exact ⟨hs', hp', hx⟩
+        split at h
+        · cases h
+        · rename_i hx
+          cases h
+          refine ⟨hs', hp', ?_⟩
+          intro he
+          subst he
+          simpa using hx
     | cons t rest =>
       cases t with
       | dir d =>
